@@ -20,7 +20,7 @@ def register(PROPS):
                  'reported.  The reference model is the union of the occurrence lists of the constituents (each obtained by draining a '
                  'separately parsed copy of that constituent alone), sorted by start, an occurrence with the same UID and instant in '
                  'several constituents kept once; occurrences of different UIDs at one instant may come in either order.  After every '
-                 'prefix the stream is cloned and the clone must deliver what the original goes on to deliver.  A further driver (c02_zonemix, mode rdate) feeds RDATE lists whose values are written in different forms (UTC / three fixed-offset zones, every assignment) and requires the stream to be non-decreasing and complete.',
+                 'prefix the stream is cloned and the clone must deliver what the original goes on to deliver.  A further driver (c02_zonemix, mode rdate) feeds RDATE lists whose values are written in different forms (UTC / three fixed-offset zones, every assignment) and requires the stream to be non-decreasing and complete.  A third driver (c03_forms) merges every subset of 2-3 (thorough 2-5) out of eight constituents whose occurrences are WRITTEN differently - all-day dates (daily and weekly), UTC date-times at 00:00:00, 12:00 and 23:59:59, local times of Europe/Berlin (across its DST switch), America/New_York and Asia/Tokyo that fall on or next to UTC midnight - by vmux in both orders and as one file, read by pops and by peek-pop pairs, each run and each reference reading in a freshly forked image: starts must be non-decreasing with an all-day occurrence starting at 00:00:00 of its day, the delivered (UID, start) multiset must be the union of what the constituents deliver alone, a peek must show what the next pop returns.',
         'note': 'Not covered: more than 4 constituents or 3 occurrences each, duplicates inside one constituent (not settled by the '
                 'property text), more than 2 consecutive peeks.  Clone is used as an oracle, it is not part of the property; clone defects '
                 'are reported under clone-*/crash signatures.',
@@ -46,6 +46,8 @@ def register(PROPS):
         'drivers': [
             D('c02_zonemix', ['mode=rdate', 'maxlist=4'], ['mode=rdate', 'maxlist=5'], label='zonemix-rdate', shards=4),
             D('c02_zonemix', ['mode=rdate', 'maxlist=3'], label='zonemix-rdate-asan', shards=4, variant='asan'),
+            D('c03_forms', ['maxn=3'], ['maxn=5'], label='forms', shards=4),
+            D('c03_forms', ['maxn=2'], ['maxn=3'], label='forms-asan', shards=4, variant='asan'),
             D('c03_mux', ['fam=plain', 'nmax=3', 'lmax=2'], ['fam=plain', 'nmax=3', 'lmax=3', '--deadline', '420'], label='plain'),
             # four streams: echs_evstrm_mux() overruns its 24-byte array from the 4th stream on (known finding); what a plain build does
             # after that is not reproducible, so that constructor gets its 4-stream configurations under ASan only (below)
